@@ -23,7 +23,7 @@ FUNCTIONS = ["CursorAwareWindow.get_cursor_position", "get_cursor_position.retry
              "CursorAwareWindow._get_cursor_vertical_diff_once", "BaseWindow.write"]
 BOUNDS = ("(a) extra: 0..2 characters (thorough 3) over 8 classes {ESC, '[', 0x9b, digit, ';', 'R', letter, newline/CR}, "
           "symbolic within the class, not containing a complete look-alike report; CSI 7-bit and 8-bit; row 1..3 digits, "
-          "column 1..2 digits (4 literal reports incl. leading zeros: 1;1 120;45 07;9 9;10); trailing 0..1 characters; up to 2 reads fail "
+          "column 1..2 digits (5 literal reports incl. leading zeros: 1;1 120;45 07;9 9;10 3;7); trailing 0..1 characters; up to 2 reads fail "
           "with OSError at symbolic positions; with and without extra_bytes_callback. (b) top_usable_row >= 0, last row "
           "None or any int >= 0, up to 3 reported rows with |movement| <= 12 each, re-entrant call during any query. (c) terminals 2x2, 3x2 "
           "(thorough + 4x2, 3x3), start row any, arrays of height 0..h+2 (quick: seeded sample), cursor row any array row, movement -2..2")
@@ -55,7 +55,7 @@ def instances(tier, seed):
         for cb in (True, False):
             for vi in range(len(VARIANTS)):
                 for i in range(0, len(words), per):
-                    if tier == "quick" and (csi, cb, vi) not in (("7", True, 1), ("7", False, 0), ("8", True, 2), ("8", False, 3)):
+                    if tier == "quick" and (csi, cb, vi) not in (("7", True, 1), ("7", False, 0), ("8", True, 2), ("8", False, 3), ("8", True, 4), ("7", False, 4)):
                         continue
                     out.append({"name": "parse-csi%s-%s-v%d-%03d" % (csi, "cb" if cb else "nocb", vi, i), "fn": "parse", "timeout": T, "cost": 3,
                                 "params": {"csi": csi, "cb": cb, "lo": i, "hi": i + per, "maxextra": maxextra, "variant": vi, "quickwords": tier == "quick"}})
@@ -74,7 +74,8 @@ def instances(tier, seed):
 
 
 # (row digits, column digits, read indices that raise OSError first, class of one trailing character or None)
-VARIANTS = [("1", "1", (), None), ("120", "45", (0,), "D"), ("07", "9", (2, 5), "R"), ("9", "10", (1, 2), "L")]
+VARIANTS = [("1", "1", (), None), ("120", "45", (0,), "D"), ("07", "9", (2, 5), "R"), ("9", "10", (1, 2), "L"),
+            ("3", "7", (), "L")]       # the shortest possible report with input waiting behind it
 
 
 def witness_instances(fn, lst, tier):
